@@ -299,6 +299,70 @@ class CFG:
                     dq.append(m)
         return None
 
+    def reaching_defs(self, var):
+        """{node id: set of node ids whose statement assigns `var` and may reach the node's entry};
+        the entry node stands for "parameter / not assigned yet"."""
+        key = "_rd_" + var
+        if hasattr(self, key):
+            return getattr(self, key)
+        defs = {}
+        for n in self.nodes:
+            s = n.stmt
+            if n.kind == "stmt" and isinstance(s, (ast.Assign, ast.AugAssign, ast.AnnAssign)):
+                tg = s.targets if isinstance(s, ast.Assign) else [s.target]
+                if any(isinstance(x, ast.Name) and x.id == var for t in tg for x in ast.walk(t)):
+                    defs[n.id] = True
+            elif n.kind == "loop" and isinstance(s, ast.For):
+                if any(isinstance(x, ast.Name) and x.id == var for x in ast.walk(s.target)):
+                    defs[n.id] = True
+            elif n.kind == "with":
+                for it in s.items:
+                    if it.optional_vars is not None and any(isinstance(x, ast.Name) and x.id == var for x in ast.walk(it.optional_vars)):
+                        defs[n.id] = True
+        IN = {n.id: set() for n in self.nodes}
+        OUT = {n.id: set() for n in self.nodes}
+        OUT[self.entry.id] = {self.entry.id}
+        changed = True
+        while changed:
+            changed = False
+            for n in self.nodes:
+                if n.id == self.entry.id:
+                    continue
+                new_in = set()
+                for p, label in self.pred[n.id]:
+                    # an exception edge out of an assignment leaves before the assignment happened
+                    if label.startswith("exc") and p in defs:
+                        new_in |= IN[p]
+                    else:
+                        new_in |= OUT[p]
+                new_out = {n.id} if n.id in defs else new_in
+                if new_in != IN[n.id] or new_out != OUT[n.id]:
+                    IN[n.id], OUT[n.id] = new_in, new_out
+                    changed = True
+        setattr(self, key, IN)
+        return IN
+
+    def node_of_expr(self, fn_node, expr):
+        """id of the CFG node whose statement/test contains the expression node"""
+        for n in self.nodes:
+            s = n.stmt
+            if s is None:
+                continue
+            roots = [s]
+            if n.kind == "test":
+                roots = [s.test]
+            elif n.kind == "loop":
+                roots = [s.test] if isinstance(s, ast.While) else [s.iter, s.target]
+            elif n.kind == "with":
+                roots = [i.context_expr for i in s.items]
+            elif n.kind == "handler":
+                roots = [s.type] if s.type is not None else []
+            for r in roots:
+                for x in ast.walk(r):
+                    if x is expr:
+                        return n.id
+        return None
+
     def describe(self, ids):
         return [repr(self.nodes[i]) for i in ids]
 
